@@ -77,7 +77,8 @@ Proof. intros evs. apply (run_from_inv evs init init_inv). Qed.
 (* ---- part 2: the record tracks the server ---- *)
 Definition R (s : state) (v : server) : Prop :=
   hist _ _ s = shist _ _ v /\ moves _ _ s = smoves _ _ v /\ ended _ _ s = sended _ _ v /\ crashed _ _ s = false /\
-  length (hist _ _ s) = S (length (moves _ _ s)) /\ noks _ _ v = 0.
+  length (hist _ _ s) = S (length (moves _ _ s)) /\ noks _ _ v = 0 /\
+  (ack _ _ v = true -> enabled _ _ s = false).          (* while an undo is outstanding the loop does not listen to its thinker *)
 
 Lemma cur_stop s v : hist _ _ s = shist _ _ v -> cur s = stop v.
 Proof. intros H. unfold Bot.cur, Bot.stop. now rewrite H. Qed.
@@ -88,17 +89,18 @@ Proof. unfold Bot.srv_hears. rewrite !Nat.ltb_irrefl. now destruct v. Qed.
 Lemma hears_quiet v s s' : out _ _ s' = out _ _ s -> undo_acks _ _ s' = undo_acks _ _ s -> srv_hears v s s' = v.
 Proof. intros Ho Hu. unfold Bot.srv_hears. rewrite Ho, Hu, !Nat.ltb_irrefl. now destruct v. Qed.
 
-Lemma R_restart s v : R s v -> R (restart s) v.
-Proof. intros (Hh & Hm & He & Hc & Hl & Hn). repeat split; assumption. Qed.
+Lemma R_restart s v : R s v -> ack _ _ v = false -> R (restart s) v.
+Proof. intros (Hh & Hm & He & Hc & Hl & Hn & Ha) Hk. repeat split; try assumption. intros X. congruence. Qed.
 
-Lemma step2_R s v e : R s v -> Inv s -> env_allows v e = true -> R (step s e) (srv_hears (srv_emit v e) s (step s e)).
+Lemma step2_R s v e : R s v -> Inv s -> env_allows s v e = true -> R (step s e) (srv_hears (srv_emit v e) s (step s e)).
 Proof.
-  intros HR Hi Hal. pose proof HR as (Hh & Hm & He & Hc & Hl & Hn).
+  intros HR Hi Hal. pose proof HR as (Hh & Hm & He & Hc & Hl & Hn & Ha).
   unfold Bot.step, Bot.srv_emit.
   destruct (ended _ _ s) eqn:En; cbn [orb].
   { rewrite <- He. rewrite hears_same. exact HR. }
   rewrite Hc. rewrite <- He.
   unfold Bot.env_allows in Hal. rewrite <- He in Hal. cbn [orb] in Hal.
+  apply andb_prop in Hal. destruct Hal as [Hk Hal].
   destruct e as [l| |m|m|].
   - destruct l.
     + (* LMove *)
@@ -108,13 +110,15 @@ Proof.
       repeat split; cbn; try congruence; try (now rewrite Hl).
     + discriminate.
     + (* LTime *)
-      destruct (armed _ _ s); [rewrite hears_quiet by reflexivity; now apply R_restart|].
-      rewrite hears_same. exact HR.
+      destruct (armed _ _ s) eqn:Ar.
+      * rewrite hears_quiet by reflexivity. apply R_restart; [exact HR|].
+        destruct (ack _ _ v); [discriminate|reflexivity].
+      * rewrite hears_same. exact HR.
     + (* LReqUndo *)
       destruct accept_undo.
       * unfold Bot.srv_hears. cbn [out undo_acks set_enabled add_ack]. rewrite Nat.ltb_irrefl.
         replace (undo_acks _ _ s <? S (undo_acks _ _ s)) with true by (symmetry; apply Nat.ltb_lt; lia).
-        repeat split; cbn; congruence.
+        repeat split; cbn; auto; congruence.
       * rewrite hears_same. exact HR.
     + (* LUndo *)
       apply andb_prop in Hal. destruct Hal as [_ Hal].
@@ -122,37 +126,40 @@ Proof.
       destruct (hist _ _ s) as [|a [|b h]] eqn:Eh; try discriminate.
       destruct (moves _ _ s) as [|m0 ms] eqn:Em; [cbn in Hl; discriminate|].
       rewrite hears_quiet by reflexivity.
-      repeat split; cbn; try assumption.
+      repeat split; cbn; try assumption; try discriminate.
       * rewrite <- Hh. reflexivity.
       * rewrite <- Hm. reflexivity.
       * cbn in Hl. lia.
     + (* LOver *)
-      rewrite hears_quiet by reflexivity. repeat split; cbn; congruence.
+      rewrite hears_quiet by reflexivity. repeat split; cbn; auto; congruence.
     + (* LAbandoned *)
-      rewrite hears_quiet by reflexivity. repeat split; cbn; congruence.
+      rewrite hears_quiet by reflexivity. repeat split; cbn; auto; congruence.
     + rewrite hears_same. exact HR.
   - (* Closed *)
-    rewrite hears_quiet by reflexivity. repeat split; cbn; congruence.
+    rewrite hears_quiet by reflexivity. repeat split; cbn; auto; congruence.
   - (* Answer *)
     destruct (answered _ _ s || over (spawned_on _ _ s)); [rewrite hears_same; exact HR|].
     cbn [enabled set_answered].
-    destruct (enabled _ _ s) eqn:E; cbn [negb]; [|rewrite hears_quiet by reflexivity; repeat split; cbn; congruence].
+    destruct (enabled _ _ s) eqn:E; cbn [negb]; [|rewrite hears_quiet by reflexivity; repeat split; cbn; auto; congruence].
+    assert (Hak : ack _ _ v = false) by (destruct (ack _ _ v); [specialize (Ha eq_refl); discriminate|reflexivity]).
     destruct Hi as [_ Hen]. destruct (Hen E) as [Hs Ht].
     change (cur (set_answered pos move s)) with (cur s).
     destruct (apply (cur s) m) as [p'|] eqn:A.
     + unfold Bot.srv_hears. cbn [out undo_acks Bot.restart set_record add_sent set_answered length s_move].
       replace (length (out _ _ s) <? S (length (out _ _ s))) with true by (symmetry; apply Nat.ltb_lt; lia).
       rewrite Nat.ltb_irrefl.
-      rewrite <- (cur_stop s v Hh). rewrite Ht, A.
+      rewrite <- (cur_stop s v Hh). rewrite Ht, Hak, A. cbn [negb andb].
       repeat split; cbn; try congruence; try (now rewrite Hl).
-    + rewrite hears_quiet by reflexivity. repeat split; cbn; congruence.
+    + rewrite hears_quiet by reflexivity. repeat split; cbn; auto; congruence.
   - rewrite hears_same. exact HR.
-  - destruct (armed _ _ s); [rewrite hears_quiet by reflexivity; now apply R_restart|].
-    rewrite hears_same. exact HR.
+  - destruct (armed _ _ s) eqn:Ar.
+    + rewrite hears_quiet by reflexivity. apply R_restart; [exact HR|].
+      destruct (ack _ _ v); [discriminate|reflexivity].
+    + rewrite hears_same. exact HR.
 Qed.
 
 Lemma init_R : R init srv_init.
-Proof. repeat split. Qed.
+Proof. repeat split. discriminate. Qed.
 
 Definition is_end (e : event) : bool :=
   match e with Line _ (LOver _) | Line _ (LAbandoned _) | Closed _ => true | _ => false end.
@@ -170,7 +177,7 @@ Proof.
   unfold Bot.srv_hears.
   destruct (length (out _ _ s) <? length (out _ _ s')); destruct (undo_acks _ _ s <? undo_acks _ _ s'); cbn; try reflexivity;
     destruct (out _ _ s') as [|o ?]; try reflexivity;
-    destruct (if bots_turn (stop v) then apply (stop v) (s_move _ _ o) else None); reflexivity.
+    destruct (if bots_turn (stop v) && negb (ack _ _ v) then apply (stop v) (s_move _ _ o) else None); reflexivity.
 Qed.
 
 Lemma run2_from_spec evs : forall s v s' v',
@@ -180,7 +187,7 @@ Lemma run2_from_spec evs : forall s v s' v',
 Proof.
   induction evs as [|e evs IH]; intros s v s' v' HR Hi H; cbn in H.
   - inversion H; subst. cbn. rewrite orb_false_r. auto.
-  - destruct (env_allows v e) eqn:Hal; [|discriminate].
+  - destruct (env_allows s v e) eqn:Hal; [|discriminate].
     destruct (IH _ _ _ _ (step2_R s v e HR Hi Hal) (step_inv s e Hi) H) as (E1 & E2 & E3 & E4).
     split; [exact E1|]. split; [exact E2|]. split; [exact E3|].
     rewrite E4, hears_sended, emit_sended. cbn. now rewrite orb_assoc.
@@ -203,12 +210,64 @@ Theorem bot_tracks_server : forall evs, env_ok evs ->
 Proof.
   intros evs Hok. unfold Bot.env_ok in Hok.
   destruct (run2 evs) as [[s v]|] eqn:E; [|congruence].
-  destruct (run2_from_spec evs _ _ _ _ init_R init_inv E) as (E1 & (Hh & Hm & He & Hc & Hl & Hn) & Hi & Hs).
+  destruct (run2_from_spec evs _ _ _ _ init_R init_inv E) as (E1 & (Hh & Hm & He & Hc & Hl & Hn & Ha) & Hi & Hs).
   exists v. unfold Bot.run. rewrite <- E1.
   repeat split; try assumption; try (apply Hi).
   - intros X. rewrite He, Hs in X. exact X.
   - intros X. rewrite He, Hs. exact X.
 Qed.
+
+(* An answer that is already queued in the buffered channel when the loop handles a P/M line or accepts an undo
+   request (it landed after the line was taken, before the branch's moveCancel()) is never transmitted: the
+   branch sets moves = nil, so whatever the thinker wrote, the next select does not read it. *)
+Lemma answer_ignored s a :
+  ended _ _ s || crashed _ _ s = true \/ enabled _ _ s = false ->
+  out _ _ (step s (Answer _ a)) = out _ _ s /\ moves _ _ (step s (Answer _ a)) = moves _ _ s /\
+  hist _ _ (step s (Answer _ a)) = hist _ _ s.
+Proof.
+  intros H. unfold Bot.step. destruct (ended _ _ s || crashed _ _ s); [auto|].
+  destruct H as [H|H]; [discriminate|].
+  destruct (answered _ _ s || over (spawned_on _ _ s)); [auto|]. cbn. rewrite H. cbn. auto.
+Qed.
+
+Lemma move_line_disables s m :
+  let s1 := step s (Line _ (LMove _ m)) in ended _ _ s1 || crashed _ _ s1 = true \/ enabled _ _ s1 = false.
+Proof.
+  cbn zeta. unfold Bot.step. destruct (ended _ _ s || crashed _ _ s) eqn:E; [left; exact E|].
+  destruct (apply (cur s) m); right; reflexivity.
+Qed.
+
+Lemma undo_accept_disables s : accept_undo = true ->
+  let s1 := step s (Line _ (LReqUndo _)) in ended _ _ s1 || crashed _ _ s1 = true \/ enabled _ _ s1 = false.
+Proof.
+  intros Hacc. cbn zeta. unfold Bot.step. rewrite Hacc. destruct (ended _ _ s || crashed _ _ s) eqn:E; [left; exact E|].
+  right; reflexivity.
+Qed.
+
+Lemma queued_answer_ignored_move s m a :
+  let s1 := step s (Line _ (LMove _ m)) in
+  out _ _ (step s1 (Answer _ a)) = out _ _ s1 /\ moves _ _ (step s1 (Answer _ a)) = moves _ _ s1 /\
+  hist _ _ (step s1 (Answer _ a)) = hist _ _ s1.
+Proof. cbn zeta. apply answer_ignored, move_line_disables. Qed.
+
+Lemma queued_answer_ignored s m a :
+  (let s1 := step s (Line _ (LMove _ m)) in
+   out _ _ (step s1 (Answer _ a)) = out _ _ s1 /\ moves _ _ (step s1 (Answer _ a)) = moves _ _ s1 /\
+   hist _ _ (step s1 (Answer _ a)) = hist _ _ s1) /\
+  (accept_undo = true ->
+   let s1 := step s (Line _ (LReqUndo _)) in
+   out _ _ (step s1 (Answer _ a)) = out _ _ s1 /\ moves _ _ (step s1 (Answer _ a)) = moves _ _ s1 /\
+   hist _ _ (step s1 (Answer _ a)) = hist _ _ s1).
+Proof.
+  split; [apply queued_answer_ignored_move|].
+  intros Hacc. cbn zeta. apply answer_ignored, undo_accept_disables, Hacc.
+Qed.
+
+Lemma queued_answer_ignored_undo s a : accept_undo = true ->
+  let s1 := step s (Line _ (LReqUndo _)) in
+  out _ _ (step s1 (Answer _ a)) = out _ _ s1 /\ moves _ _ (step s1 (Answer _ a)) = moves _ _ s1 /\
+  hist _ _ (step s1 (Answer _ a)) = hist _ _ s1.
+Proof. intros Hacc. cbn zeta. apply answer_ignored, undo_accept_disables, Hacc. Qed.
 
 End BotFacts.
 
@@ -241,3 +300,15 @@ Proof. reflexivity. Qed.
 (* and env_ok does exclude something: an Undo the bot never accepted *)
 Lemma toy_undo_unacked : ~ env_ok nat nat toy_apply Nat.even (fun _ => false) 0 true true [Answer nat 1; Line nat (LUndo nat)].
 Proof. unfold env_ok. vm_compute. intros H. apply H. reflexivity. Qed.
+
+(* the contract also excludes the grace timer acting between the bot's acceptance and the Undo line *)
+Lemma toy_grace_in_undo_window :
+  ~ env_ok nat nat toy_apply Nat.even (fun _ => false) 0 true true
+      [Answer nat 1; Line nat (LMove nat 2); Line nat (LReqUndo nat); Grace nat].
+Proof. unfold env_ok. vm_compute. intros H. apply H. reflexivity. Qed.
+(* ... while a thinker may return in that window, and with no timer pending Time lines may pass too *)
+Lemma toy_answers_in_undo_window :
+  env_ok nat nat toy_apply Nat.even (fun _ => false) 0 true true
+      [Answer nat 1; Line nat (LMove nat 2); Grace nat; Line nat (LReqUndo nat); Answer nat 3; Late nat 4; Line nat (LTime nat);
+       Line nat (LUndo nat); Answer nat 5].
+Proof. unfold env_ok. vm_compute. discriminate. Qed.
